@@ -114,6 +114,9 @@ class _Normalise(ast.NodeTransformer):
         except Exception:
             pass
         # default keyword arguments of the torch API written out: torch.cat(x, dim=0) == torch.cat(x)
+        if d in ("torch.cat", "torch.stack") and len(n.args) == 2 and not n.keywords and isinstance(n.args[1], ast.Constant) and \
+                n.args[1].value == 0 and not isinstance(n.args[1].value, bool):
+            n.args = n.args[:1]
         if d in ("torch.cat", "torch.stack") and len(n.args) == 1:
             n.keywords = [k for k in n.keywords if not (k.arg in ("dim", "axis") and isinstance(k.value, ast.Constant) and k.value.value == 0)]
         # x.to(torch.<dtype>) == x.type(torch.<dtype>) ; x.expand(y.shape) == x.expand_as(y)
@@ -128,6 +131,13 @@ class _Normalise(ast.NodeTransformer):
         # torch.zeros(a, b) == torch.zeros((a, b))   (sizes given as separate positional arguments)
         if d in ("torch.zeros", "torch.ones", "torch.empty") and len(n.args) >= 2 and not any(isinstance(a, ast.Starred) for a in n.args):
             n.args = [ast.copy_location(ast.Tuple(elts=list(n.args), ctx=ast.Load()), n)]
+        # N16: x.size(k) == x.shape[k]  (torch; numpy's .size is not callable, so an int-literal call is the torch accessor)
+        if isinstance(n.func, ast.Attribute) and n.func.attr == "size" and len(n.args) == 1 and not n.keywords:
+            a0 = n.args[0]
+            lit = a0.operand if isinstance(a0, ast.UnaryOp) and isinstance(a0.op, ast.USub) else a0
+            if isinstance(lit, ast.Constant) and isinstance(lit.value, int) and not isinstance(lit.value, bool):
+                return ast.copy_location(ast.Subscript(value=ast.copy_location(ast.Attribute(value=n.func.value, attr="shape", ctx=ast.Load()), n),
+                                                       slice=a0, ctx=ast.Load()), n)
         if isinstance(n.func, ast.Attribute) and n.func.attr == "clone" and not n.args and not n.keywords and \
                 not (isinstance(n.func.value, ast.Name) and n.func.value.id == "torch"):
             n = ast.copy_location(ast.Call(func=ast.Attribute(value=ast.Name(id="torch", ctx=ast.Load()), attr="clone", ctx=ast.Load()),
@@ -776,11 +786,459 @@ class _Rename(ast.NodeTransformer):
         return n
 
 
+# ------------------------------------------------------------------ N17: p.shape[2] == p.shape[-1] for a parameter documented with rank 3
+_RANK_KEEPING = ("to", "type", "float", "double", "long", "int", "cpu", "cuda", "detach", "contiguous", "clone", "requires_grad_")
+
+
+def _doc_ranks(func):
+    """parameter -> rank, read from the numpy-doc `shape=(..)` annotation of tensor parameters"""
+    return {k: v for k, v in _doc_tensors(func).items() if v is not None}
+
+
+def _doc_tensors(func):
+    """parameter -> rank | None for the parameters the numpy-doc types as torch.Tensor / numpy.ndarray"""
+    import re
+    from .front import _balanced_shape, split_top
+    out, insec = {}, False
+    for l in (ast.get_docstring(func) or "").split("\n"):
+        if l.strip() == "Parameters":
+            insec = True
+            continue
+        if l.strip() in ("Returns", "Yields", "Raises"):
+            insec = False
+        if not insec or l.startswith((" ", "\t")):
+            continue
+        m = re.match(r"^(\w+)\s*:\s*(.*)$", l)
+        if m and ("tensor" in m.group(2).lower() or "ndarray" in m.group(2).lower()):
+            sh = _balanced_shape(m.group(2))
+            alt = re.search(r"\b(list|tuple|str|None|int|float)\b", m.group(2).split("shape")[0])
+            if sh is not None:
+                out[m.group(1)] = len(split_top(sh))
+            elif not alt:
+                out[m.group(1)] = None
+    return out
+
+
+def _shape_reads(func, p):
+    out = []
+    for n in ast.walk(func):
+        if isinstance(n, ast.Subscript) and isinstance(n.value, ast.Attribute) and n.value.attr == "shape" and \
+                isinstance(n.value.value, ast.Name) and n.value.value.id == p:
+            k = n.slice
+            v = None
+            if isinstance(k, ast.Constant) and isinstance(k.value, int) and not isinstance(k.value, bool):
+                v = k.value
+            elif isinstance(k, ast.UnaryOp) and isinstance(k.op, ast.USub) and isinstance(k.operand, ast.Constant) and \
+                    isinstance(k.operand.value, int) and not isinstance(k.operand.value, bool):
+                v = -k.operand.value
+            if v is not None:
+                out.append((n, v))
+    return out
+
+
+def rank_stable(func, p):
+    """every assignment to p in func is a rank-keeping conversion of itself"""
+    for n in ast.walk(func):
+        tg = []
+        if isinstance(n, ast.Assign):
+            tg = [(t, n.value) for t in n.targets]
+        elif isinstance(n, (ast.AugAssign, ast.AnnAssign)):
+            tg = [(n.target, n.value)]
+        elif isinstance(n, (ast.For, ast.comprehension)):
+            tg = [(n.target, None)]
+        elif isinstance(n, ast.withitem) and n.optional_vars is not None:
+            tg = [(n.optional_vars, None)]
+        elif isinstance(n, ast.NamedExpr):
+            tg = [(n.target, None)]
+        for t, v in tg:
+            if not any(isinstance(x, ast.Name) and x.id == p and isinstance(x.ctx, ast.Store) for x in ast.walk(t)):
+                continue
+            keep = isinstance(t, ast.Name) and isinstance(n, ast.Assign) and isinstance(v, ast.Call) and (
+                (isinstance(v.func, ast.Attribute) and v.func.attr in _RANK_KEEPING and isinstance(v.func.value, ast.Name) and v.func.value.id == p) or
+                (ast.unparse(v.func) in ("torch.clone", "_cast_as_tensor") and v.args and isinstance(v.args[0], ast.Name) and v.args[0].id == p))
+            if not keep:
+                return False
+    return True
+
+
+def shape_index_spelling(cfunc, rfunc):
+    """`p.shape[k]` of a parameter whose documented rank is r is re-spelled `p.shape[k - r]` (or back) when that is the spelling the
+    reference uses for the same extent.  p must keep its rank: it is a parameter of both versions and every assignment to it in the
+    variant is a rank-keeping conversion of itself (`p = p.to(..)`, `p = torch.clone(p)` ...)."""
+    ranks = _doc_ranks(rfunc)
+    acts = []
+    # N21: `a, b, c = p.shape` for a parameter of documented rank 3 is three reads p.shape[0], p.shape[1], p.shape[2] (unless the
+    # reference unpacks the same shape itself)
+    ref_unpacks = {ast.unparse(n.value) for n in ast.walk(rfunc) if isinstance(n, ast.Assign) and isinstance(n.targets[0], ast.Tuple)}
+    def split_unpacks(stmts):
+        i = 0
+        while i < len(stmts):
+            st = stmts[i]
+            for fld in ("body", "orelse", "finalbody"):
+                if isinstance(getattr(st, fld, None), list) and not isinstance(st, SCOPES):
+                    split_unpacks(getattr(st, fld))
+            for h in getattr(st, "handlers", []) or []:
+                split_unpacks(h.body)
+            if isinstance(st, ast.Assign) and len(st.targets) == 1 and isinstance(st.targets[0], ast.Tuple) and \
+                    all(isinstance(e, ast.Name) for e in st.targets[0].elts) and isinstance(st.value, ast.Attribute) and \
+                    st.value.attr == "shape" and isinstance(st.value.value, ast.Name) and ast.unparse(st.value) not in ref_unpacks:
+                p_ = st.value.value.id
+                names = [e.id for e in st.targets[0].elts]
+                if ranks.get(p_) == len(names) and p_ in params_of(cfunc) and rank_stable(cfunc, p_) and p_ not in names and \
+                        len(set(names)) == len(names):
+                    new = [ast.copy_location(ast.Assign(targets=[ast.Name(id=nm, ctx=ast.Store())],
+                                                        value=ast.Subscript(value=ast.Attribute(value=ast.Name(id=p_, ctx=ast.Load()), attr="shape", ctx=ast.Load()),
+                                                                            slice=ast.Constant(value=k), ctx=ast.Load())), st)
+                           for k, nm in enumerate(names) if nm in used]      # an extent nobody reads is a dead pure read
+                    new = new or [ast.copy_location(ast.Pass(), st)]
+                    stmts[i:i + 1] = new
+                    acts.append("shape-unpack %s" % ast.unparse(st)[:50])
+                    i += len(new)
+                    continue
+            i += 1
+    used = {x.id for x in ast.walk(cfunc) if isinstance(x, ast.Name) and isinstance(x.ctx, ast.Load)}
+    split_unpacks(cfunc.body)
+    if acts:
+        ast.fix_missing_locations(cfunc)
+    for p, r in ranks.items():
+        if p not in params_of(cfunc) or r < 1 or not rank_stable(cfunc, p):
+            continue
+        ref_k = {v for _, v in _shape_reads(rfunc, p)}
+        for n, v in _shape_reads(cfunc, p):
+            if v in ref_k or not (-r <= v < r):
+                continue
+            alt = v - r if v >= 0 else v + r
+            if alt in ref_k:
+                n.slice = ast.copy_location(ast.Constant(value=alt) if alt >= 0 else ast.UnaryOp(op=ast.USub(), operand=ast.Constant(value=-alt)), n.slice)
+                acts.append("shape-index %s.shape[%d]->[%d] (documented rank %d)" % (p, v, alt, r))
+    # N18: len(p) == p.shape[0] for a tensor / array parameter (any rank >= 1), spelled the way the reference spells it
+    for p, r in _doc_tensors(rfunc).items():
+        if p not in params_of(cfunc) or (r is not None and r < 1) or not rank_stable(cfunc, p):
+            continue
+        def lens(f):
+            return [n for n in ast.walk(f) if isinstance(n, ast.Call) and isinstance(n.func, ast.Name) and n.func.id == "len" and
+                    len(n.args) == 1 and not n.keywords and isinstance(n.args[0], ast.Name) and n.args[0].id == p]
+        lead = lambda f: [n for n, v in _shape_reads(f, p) if v == 0 or (r is not None and v == -r)]
+        r_len, r_sh, c_len, c_sh = lens(rfunc), lead(rfunc), lens(cfunc), lead(cfunc)
+        if c_len and r_sh and not r_len:
+            class _L(ast.NodeTransformer):
+                def visit_Call(self, n):
+                    self.generic_visit(n)
+                    if n in c_len:
+                        return ast.copy_location(ast.Subscript(value=ast.Attribute(value=n.args[0], attr="shape", ctx=ast.Load()),
+                                                               slice=ast.Constant(value=0), ctx=ast.Load()), n)
+                    return n
+            _L().visit(cfunc)
+            acts.append("len(%s)->%s.shape[0]" % (p, p))
+        elif c_sh and r_len and not r_sh:
+            class _S(ast.NodeTransformer):
+                def visit_Subscript(self, n):
+                    self.generic_visit(n)
+                    if n in c_sh:
+                        return ast.copy_location(ast.Call(func=ast.Name(id="len", ctx=ast.Load()), args=[n.value.value], keywords=[]), n)
+                    return n
+            _S().visit(cfunc)
+            acts.append("%s.shape[0]->len(%s)" % (p, p))
+    if acts:
+        ast.fix_missing_locations(cfunc)
+    return acts
+
+
+# ------------------------------------------------------------------ N19: positional / keyword form of the arguments of package calls
+PACKAGE_SIGNATURES = {}      # (module short name, function name) -> [positional-or-keyword parameter names]   (current tree; set by front.Repo)
+_REF_SIGS = {}
+_RESOLVE = {}                # local name -> (module short name, function name) for the module being canonicalised
+
+
+def signature_of(fdef):
+    return [a.arg for a in fdef.args.args] if not fdef.args.posonlyargs else None
+
+
+def _ref_signature(mod, fname):
+    if (mod, fname) not in _REF_SIGS:
+        f = reference_functions(mod).get(fname)
+        _REF_SIGS[(mod, fname)] = signature_of(f) if f is not None else None
+    return _REF_SIGS[(mod, fname)]
+
+
+def _arg_pure(e):
+    for n in ast.walk(e):
+        if isinstance(n, ast.Call):
+            if ast.unparse(n.func) not in ("len", "int", "float", "min", "max", "abs", "range", "tuple", "list"):
+                return False
+        elif isinstance(n, (ast.NamedExpr, ast.Yield, ast.YieldFrom, ast.Await)):
+            return False
+    return True
+
+
+def call_argument_form(cfunc, rfunc):
+    """A call of a package function binds its arguments to the callee's parameters by position or by name; the two forms denote the same
+    call.  Each such call is re-spelled with as many leading positional arguments as the reference's calls of the same callee (in the
+    same function) use, the rest by keyword in the reference's keyword order.  Conditions: the callee resolves to ONE package definition,
+    no *args / **kwargs at the call, the callee's leading parameter names agree with the reference callee's where positional form is
+    produced, and - if the order in which the argument expressions are evaluated changes - every argument expression is pure."""
+    if not _RESOLVE:
+        return []
+    shadow = locals_of(cfunc) | params_of(cfunc)
+    ref_calls = {}
+    for n in ast.walk(rfunc):
+        if isinstance(n, ast.Call) and isinstance(n.func, ast.Name):
+            ref_calls.setdefault(n.func.id, []).append(n)
+    acts = []
+    for n in ast.walk(cfunc):
+        if not (isinstance(n, ast.Call) and isinstance(n.func, ast.Name) and n.func.id in _RESOLVE and n.func.id not in shadow):
+            continue
+        if any(isinstance(a, ast.Starred) for a in n.args):
+            continue
+        key = _RESOLVE[n.func.id]
+        ps = PACKAGE_SIGNATURES.get(key)
+        rcs = ref_calls.get(n.func.id)
+        if ps is None or not rcs or len(n.args) > len(ps):
+            continue
+        if any(any(isinstance(a, ast.Starred) for a in rc.args) for rc in rcs):
+            continue
+        bound = {}
+        order = []
+        for i, a in enumerate(n.args):
+            bound[ps[i]] = a
+            order.append(a)
+        extra = []
+        dup = False
+        for k in n.keywords:
+            if k.arg in bound:
+                dup = True
+            if k.arg is not None and k.arg in ps:
+                bound[k.arg] = k.value
+            else:
+                extra.append(k)      # keyword-only / **mapping: kept behind the named parameters, in their own order
+            order.append(k.value)
+        if dup:
+            continue
+        rps = _ref_signature(*key) or []
+        # the reference call to mimic: one that binds the same parameters, else (if all agree on the positional count) the closest
+        def rbound(rc):
+            return frozenset([rps[i] for i in range(min(len(rc.args), len(rps)))] + [k.arg for k in rc.keywords if k.arg is not None])
+        mine = frozenset(bound) | frozenset(k.arg for k in extra if k.arg is not None)
+        same = [rc for rc in rcs if rbound(rc) == mine]
+        if same:
+            model = same[0]
+        elif len({len(rc.args) for rc in rcs}) == 1:
+            model = max(rcs, key=lambda rc: len(rbound(rc) & mine))
+        else:
+            continue
+        npos_ref = len(model.args)
+        npos = 0
+        while npos < npos_ref and npos < len(ps) and ps[npos] in bound and npos < len(rps) and rps[npos] == ps[npos]:
+            npos += 1
+        new_args = [bound[ps[i]] for i in range(npos)]
+        rest = [q for q in ps[npos:] if q in bound]
+        ref_kw = [k.arg for k in model.keywords]
+        old_kw = [k.arg for k in n.keywords]
+        def rank(q):
+            return (0, ref_kw.index(q)) if q in ref_kw else (1, old_kw.index(q) if q in old_kw else len(old_kw) + ps.index(q))
+        rest.sort(key=rank)
+        new_kws = [ast.keyword(arg=q, value=bound[q]) for q in rest] + extra
+        new_order = new_args + [k.value for k in new_kws]
+        if [id(x) for x in new_order] == [id(x) for x in order] and len(new_args) == len(n.args):
+            continue
+        if [id(x) for x in new_order] != [id(x) for x in order] and not all(_arg_pure(x) for x in order):
+            continue
+        before = ast.unparse(n)[:60]
+        n.args = new_args
+        n.keywords = new_kws
+        acts.append("call-form %s" % before)
+    if acts:
+        ast.fix_missing_locations(cfunc)
+    return acts
+
+
+# ------------------------------------------------------------------ N22: for i in range(len(E)) .. E[i]   <->   for i, x in enumerate(E)
+def _untouched(body, name):
+    """`name` is neither rebound nor (syntactically) mutated in the statements: no store to it or into it, no method call on it, not
+    passed whole to a call, no nested scope mentions it"""
+    for st in body:
+        for x in ast.walk(st):
+            if isinstance(x, ast.Name) and x.id == name and isinstance(x.ctx, (ast.Store, ast.Del)):
+                return False
+            if isinstance(x, (ast.Subscript, ast.Attribute)) and isinstance(x.ctx, (ast.Store, ast.Del)):
+                b = x
+                while isinstance(b, (ast.Subscript, ast.Attribute)):
+                    b = b.value
+                if isinstance(b, ast.Name) and b.id == name:
+                    return False
+            if isinstance(x, ast.Call):
+                if isinstance(x.func, ast.Attribute) and isinstance(x.func.value, ast.Name) and x.func.value.id == name:
+                    return False
+                if any(isinstance(a, ast.Name) and a.id == name for a in list(x.args) + [k.value for k in x.keywords]) and \
+                        ast.unparse(x.func) not in ("len", "range", "enumerate"):
+                    return False
+            if isinstance(x, (ast.Lambda, ast.FunctionDef)) and any(isinstance(y, ast.Name) and y.id == name for y in ast.walk(x)):
+                return False
+    return True
+
+
+
+def loop_form(lp):
+    """-> ('enum', E, i, item target) | ('range', E, i, None) | None for the two spellings of an indexed walk over a named container"""
+    if not isinstance(lp, ast.For) or lp.orelse:
+        return None
+    it = lp.iter
+    if isinstance(it, ast.Call) and isinstance(it.func, ast.Name) and it.func.id == "enumerate" and len(it.args) == 1 and not it.keywords \
+            and isinstance(it.args[0], ast.Name) and isinstance(lp.target, ast.Tuple) and len(lp.target.elts) == 2 and \
+            isinstance(lp.target.elts[0], ast.Name):
+        return "enum", it.args[0].id, lp.target.elts[0].id, lp.target.elts[1]
+    if isinstance(it, ast.Call) and isinstance(it.func, ast.Name) and it.func.id in ("range", "prange") and len(it.args) == 1 and not it.keywords and \
+            isinstance(lp.target, ast.Name):
+        a = it.args[0]
+        e = None
+        if isinstance(a, ast.Call) and isinstance(a.func, ast.Name) and a.func.id == "len" and len(a.args) == 1 and isinstance(a.args[0], ast.Name):
+            e = a.args[0].id
+        elif isinstance(a, ast.Subscript) and isinstance(a.value, ast.Attribute) and a.value.attr == "shape" and \
+                isinstance(a.value.value, ast.Name) and isinstance(a.slice, ast.Constant) and a.slice.value == 0:
+            e = a.value.value.id
+        if e is not None and it.func.id == "range":
+            return "range", e, lp.target.id, None
+    return None
+
+
+def _item_reads(body, e, i):
+    return [x for st in body for x in ast.walk(st) if isinstance(x, ast.Subscript) and isinstance(x.ctx, ast.Load) and
+            isinstance(x.value, ast.Name) and x.value.id == e and isinstance(x.slice, ast.Name) and x.slice.id == i]
+
+
+def loop_spelling(cfunc, rfunc):
+    """An indexed walk over a named container E that the loop body neither rebinds nor mutates can be written `for i in range(len(E))`
+    with E[i] reads, or `for i, x in enumerate(E)`.  When the reference walks E in exactly one of the two forms (one loop) and the
+    variant has one loop over E in the other form, the variant's loop is re-spelled in the reference's form."""
+    def loops(f):
+        out = {}
+        for lp in ast.walk(f):
+            lf = loop_form(lp)
+            if lf:
+                out.setdefault(lf[1], []).append((lp, lf))
+        return out
+    cl, rl = loops(cfunc), loops(rfunc)
+    names = {x.id for x in ast.walk(cfunc) if isinstance(x, ast.Name)}
+    acts = []
+    for e, cs in cl.items():
+        rs = rl.get(e, [])
+        if len(cs) != 1 or len(rs) != 1:
+            continue
+        (lp, (cform, _, ci, citem)), (rlp, (rform, _, ri, ritem)) = cs[0], rs[0]
+        if cform == rform or not _untouched(lp.body, e) or not _untouched(lp.body, ci) or e == ci:
+            continue
+        if cform == "enum":
+            # -> range form: item target bound from E[i] at the top of the body (view / name alias inlining removes it again)
+            lp.iter = copy.deepcopy(rlp.iter)
+            lp.target = ast.Name(id=ci, ctx=ast.Store())
+            lp.body.insert(0, ast.copy_location(ast.Assign(targets=[citem], value=ast.Subscript(value=ast.Name(id=e, ctx=ast.Load()),
+                                                slice=ast.Name(id=ci, ctx=ast.Load()), ctx=ast.Load())), lp.body[0]))
+            acts.append("loop-form enumerate(%s)->range" % e)
+        else:
+            reads = _item_reads(lp.body, e, ci)
+            first = lp.body[0]
+            if len(lp.body) > 1 and isinstance(first, ast.Assign) and len(first.targets) == 1 and any(first.value is x for x in reads) and \
+                    isinstance(first.targets[0], (ast.Name, ast.Tuple)) and len(reads) == 1 and \
+                    all(isinstance(y, (ast.Name, ast.Tuple)) for y in ast.walk(first.targets[0]) if isinstance(y, ast.expr) and not isinstance(y, ast.expr_context)):
+                # `for i in range(len(E)): x = E[i]; ...`  ->  `for i, x in enumerate(E): ...`
+                lp.body.pop(0)
+                lp.iter = ast.copy_location(ast.Call(func=ast.Name(id="enumerate", ctx=ast.Load()), args=[ast.Name(id=e, ctx=ast.Load())], keywords=[]), lp.iter)
+                lp.target = ast.Tuple(elts=[ast.Name(id=ci, ctx=ast.Store()), first.targets[0]], ctx=ast.Store())
+                acts.append("loop-form range(%s)->enumerate" % e)
+                continue
+            if not reads or not isinstance(ritem, ast.Name):
+                continue
+            nm = ritem.id if ritem.id not in names else ritem.id + "__it"
+            if nm in names:
+                continue
+            class _R(ast.NodeTransformer):
+                def visit_Subscript(self, n):
+                    if any(n is x for x in reads):
+                        return ast.copy_location(ast.Name(id=nm, ctx=ast.Load()), n)
+                    self.generic_visit(n)
+                    return n
+            for k, st in enumerate(lp.body):
+                lp.body[k] = _R().visit(st)
+            lp.iter = ast.copy_location(ast.Call(func=ast.Name(id="enumerate", ctx=ast.Load()), args=[ast.Name(id=e, ctx=ast.Load())], keywords=[]), lp.iter)
+            lp.target = ast.Tuple(elts=[ast.Name(id=ci, ctx=ast.Store()), ast.Name(id=nm, ctx=ast.Store())], ctx=ast.Store())
+            acts.append("loop-form range(%s)->enumerate" % e)
+    if acts:
+        ast.fix_missing_locations(cfunc)
+    return acts
+
+
+# ------------------------------------------------------------------ N20: dim= / axis= / positional dimension of reductions
+DIM_FUNCS = ("sum", "mean", "max", "min", "argmax", "argmin", "cumsum", "any", "all", "prod", "cat", "stack", "softmax", "log_softmax",
+             "logsumexp", "std", "var", "amax", "amin", "concatenate")
+
+
+def _dim_form(n):
+    """-> (key, form, value expr) for a reduction call; form in {'dim', 'axis', 'pos'}; None when the call names no dimension"""
+    if not (isinstance(n, ast.Call) and isinstance(n.func, ast.Attribute) and n.func.attr in DIM_FUNCS):
+        return None
+    if any(isinstance(a, ast.Starred) for a in n.args) or any(k.arg is None for k in n.keywords):
+        return None
+    fn = isinstance(n.func.value, ast.Name) and n.func.value.id in ("torch", "numpy")
+    key = (n.func.attr, n.func.value.id if fn else "<method>")
+    kw = [k for k in n.keywords if k.arg in ("dim", "axis")]
+    slot = 1 if fn else 0
+    if len(kw) == 1 and len(n.args) == slot:
+        return key, kw[0].arg, kw[0].value
+    if not kw and len(n.args) == slot + 1:
+        v = n.args[slot]
+        lit = v.operand if isinstance(v, ast.UnaryOp) and isinstance(v.op, ast.USub) else v
+        if (isinstance(lit, ast.Constant) and isinstance(lit.value, int) and not isinstance(lit.value, bool)) or \
+                n.func.attr not in ("max", "min"):       # torch.max(a, b) / a.max(b) with a tensor b is the element-wise maximum
+            return key, "pos", v
+    return None
+
+
+def dimension_argument_form(cfunc, rfunc):
+    """x.sum(dim=1) == x.sum(axis=1) == x.sum(1) (torch accepts both keywords; the dimension is the first parameter after the input).
+    A reduction call is re-spelled in the form ALL reference calls of the same reduction (same name, same receiver kind) in the same
+    function use.  For max / min a positional dimension is only recognised when it is an integer literal (torch.max(a, b) is an element-wise max)."""
+    ref_forms = {}
+    for n in ast.walk(rfunc):
+        d = _dim_form(n)
+        if d:
+            ref_forms.setdefault(d[0], set()).add(d[1])
+    acts = []
+    for n in ast.walk(cfunc):
+        d = _dim_form(n)
+        if not d or len(ref_forms.get(d[0], ())) != 1:
+            continue
+        want = next(iter(ref_forms[d[0]]))
+        key, form, val = d
+        if form == want or not all(_arg_pure(k.value) for k in n.keywords) or not _arg_pure(val):
+            continue
+        if want in ("dim", "axis") and key[1] == "numpy" and want == "dim":
+            continue
+        before = ast.unparse(n)[:50]
+        if form == "pos":
+            n.args.pop()
+            n.keywords.insert(0, ast.keyword(arg=want, value=val))
+        elif want == "pos":
+            n.keywords = [k for k in n.keywords if k.arg not in ("dim", "axis")]
+            n.args.append(val)
+        else:
+            for k in n.keywords:
+                if k.arg in ("dim", "axis"):
+                    k.arg = want
+        acts.append("dim-form %s" % before)
+    if acts:
+        ast.fix_missing_locations(cfunc)
+    return acts
+
+
 def canonicalise_function(cfunc, rfunc):
     """rewrite cfunc in place; -> list of actions taken (for the evidence)"""
     normalise(cfunc)
     rfunc = copy.deepcopy(rfunc)
     normalise(rfunc)
+    pre_acts = shape_index_spelling(cfunc, rfunc)
+    pre_acts += call_argument_form(cfunc, rfunc)
+    pre_acts += dimension_argument_form(cfunc, rfunc)
+    pre_acts += loop_spelling(cfunc, rfunc)
     fk = None if any(isinstance(n, ast.Return) and n.value is not None for n in ast.walk(cfunc)) else "func"
     al = Aligner(cfunc, rfunc)
     al.stmts(cfunc.body, rfunc.body, fk, cfunc.body if fk else None)
@@ -827,7 +1285,7 @@ def canonicalise_function(cfunc, rfunc):
             al.actions += ["rename %s->%s" % (a, b) for a, b in sorted(full.items())]
         second_pass()
     ast.fix_missing_locations(cfunc)
-    return al.actions
+    return pre_acts + al.actions
 
 
 # ------------------------------------------------------------------ N6: helpers that the reference does not have are inlined again
@@ -1159,6 +1617,28 @@ def canonicalise_module(short, tree):
                     and not (set(dotted_of) & params_of(n_)):
                 _Dot().visit(n_)
                 ast.fix_missing_locations(n_)
+    _RESOLVE.clear()
+    for n_ in tree.body:
+        if isinstance(n_, ast.ImportFrom) and n_.level:
+            pkg = short.split(".")[:-1]
+            up = n_.level - 1
+            if up > len(pkg):
+                continue
+            base = pkg[:len(pkg) - up] + ([x for x in n_.module.split(".")] if n_.module else [])
+            for a in n_.names:
+                if a.name != "*" and (".".join(base), a.name) in PACKAGE_SIGNATURES:
+                    _RESOLVE[a.asname or a.name] = (".".join(base), a.name)
+    for n_ in tree.body:
+        if isinstance(n_, ast.FunctionDef) and (short, n_.name) in PACKAGE_SIGNATURES:
+            _RESOLVE[n_.name] = (short, n_.name)
+    # a module-level name bound any other way (assignment, class, plain import) is not a resolved package function
+    for n_ in tree.body:
+        if isinstance(n_, (ast.Assign, ast.AnnAssign, ast.AugAssign)):
+            for x in ast.walk(n_):
+                if isinstance(x, ast.Name) and isinstance(x.ctx, ast.Store):
+                    _RESOLVE.pop(x.id, None)
+        elif isinstance(n_, ast.ClassDef):
+            _RESOLVE.pop(n_.name, None)
     counter = [0]
     origin = {}
     for n in tree.body:
@@ -1168,7 +1648,7 @@ def canonicalise_module(short, tree):
                 if inl:
                     log.setdefault(n.name, []).extend("inline-helper %s" % h for h in inl)
             if n.name in ref:
-                if ast.dump(n) == ast.dump(ref[n.name]):
+                if ast.dump(n) == ast.dump(ref[n.name]) and not os.environ.get("TMVERIF_CANON_SELFCHECK"):
                     normalise(n)
                     continue
                 acts = canonicalise_function(n, ref[n.name])
